@@ -67,4 +67,17 @@ theorem path_writes_no_package_state :
     here is the same under every fork schedule and height. -/
 theorem path_reads_no_fork_flag : C13Sites.forkFlagReads = [] := by decide
 
+/-- The generator part of `round1.Update` is, statement for statement, what `Model.Shamir.round1Update`
+    transcribes: block-signature share first, nothing else if it was not added, then the beacon
+    share, header fields and `canProcessed` only under `radd && generate && rgen`; and the nil guard on
+    the beacon share is there. A reordering, a dropped guard or a changed condition breaks this. -/
+theorem round1_update_tail_pinned :
+    C13Sites.round1UpdateTail =
+      ["add, generate := r.gSignGenerator.AddWitnessSign(si.GetSignerID(), si.GetSignature())",
+       "if !add { return nil }",
+       "radd, rgen := r.rSignGenerator.AddWitnessSign(si.GetSignerID(), *sig)",
+       "if radd && generate && rgen { bh.Signature = r.gSignGenerator.GetGroupSign().Serialize() ; bh.Random = r.rSignGenerator.GetGroupSign().Serialize() ; r.canProcessed = true }",
+       "return nil"] ∧
+    C13Sites.round1RandomNilGuard = true := ⟨rfl, rfl⟩
+
 end Rangers.Props.C13Facts
